@@ -30,3 +30,60 @@ Qed.
 Theorem tile_zoom_domain_is_the_conversion_window h v :
   ext_check_zoom h v = ((0 <=? h) && (h <=? Generated.MaxTileXYZZoom)) && ((0 <=? v) && (v <=? Generated.MaxTileXYZZoom)).
 Proof. reflexivity. Qed.
+
+(* =====================================================================================================================
+   INT64. The kernels regenerated from /repo with Go's int64 semantics explicit (generated/Generated64.v, vocabulary I64.v:
+   Some (r, true) = returns r and no intermediate left the int64 range; None = run-time panic). On the domain of C13 the int64 code
+   of every kernel the tile conversions execute IS the unbounded model the theorems of Tile.v speak about.
+   ===================================================================================================================== *)
+From Coq Require Import Reals.
+From Flocq Require Import Core.
+From SIDGen Require Generated64.
+From SID Require Import I64 GenTac GenEqAlt GenEqZoom GenEq64Tac GenEq64Alt GenEq64Zoom AltKey Voxel ZoomCore.
+
+(* the zoom test of the loop: comparisons only, never inexact *)
+Theorem generated64_zoom_check h v : Generated64.extendedSpatialIDCheckZoom h v = I64.ret (ext_check_zoom h v).
+Proof. rewrite gen64_extendedSpatialIDCheckZoom_eq, gen_extendedSpatialIDCheckZoom_eq. reflexivity. Qed.
+
+(* THE PER-TILE RANGE: for a tile NewTileXYZ returns, an output zoom in 0..35, a base exponent in 0..35 and |offset| <= 2^50 the int64
+   code of ConvertAltitudekeyToMinMaxZ neither panics nor wraps, and what it returns is the specification of C13 in the words that do not
+   mention the conversion: an error exactly when the tile does not fit, otherwise the metre-widened cover of the tile's altitude interval *)
+Theorem generated64_tile_range_spec h x y v z t E O outV : new_tile h x y v z = Ok t -> 0 <= outV <= 35 ->
+  0 <= E <= 35 -> - 2 ^ 50 <= O <= 2 ^ 50 ->
+  exists r, Generated64.ConvertAltitudekeyToMinMaxZ (tz t) (tv t) outV E O = Some (enc_zz r, true) /\
+    match r with
+    | Ok (mn, mx) => tile_fits E O outV t /\ mn = wid_min (sid_scale outV) (tile_lo E O t) /\ mx = wid_max (sid_scale outV) (tile_hi E O t)
+    | Err => ~ tile_fits E O outV t
+    end.
+Proof.
+  intros Hn Hz HE HO. apply new_tile_ok in Hn. destruct Hn as (Hh & Hv & _).
+  exists (key2z (tz t) (tv t) outV E O). split.
+  - rewrite gen64_ConvertAltitudekeyToMinMaxZ_fits by lia. now rewrite gen_ConvertAltitudekeyToMinMaxZ_eq.
+  - assert (Zc : ext_check_zoom (th t) outV = true) by (apply ext_check_zoom_spec; lia).
+    destruct (key2z (tz t) (tv t) outV E O) as [[mn mx]|] eqn:K.
+    + apply tile_accepted_iff. split; assumption.
+    + apply tile_rejected_iff. right. exact K.
+Qed.
+(* ... and it never panics, whatever the int64 arguments (base exponent up to 2^62 in absolute value) *)
+Theorem generated64_tile_range_no_panic k kz out E O : - 2 ^ 62 <= E <= 2 ^ 62 -> Generated64.ConvertAltitudekeyToMinMaxZ k kz out E O <> None.
+Proof. apply gen64_ConvertAltitudekeyToMinMaxZ_no_panic. Qed.
+
+(* THE EXPANSION of the spatial variant (ConvertExtendedSpatialIDToSpatialIDs calls HorizontalZoomMinMax when hZoom < vZoom and VerticalZoom
+   when hZoom > vZoom): for every extended ID the conversion returns for tiles whose x, y are indices of their horizontal zoom, the int64
+   code of both kernels neither panics nor wraps and returns what the model (ZoomCore.hzoom_minmax / vzoom_minmax) returns *)
+Theorem generated64_expansion_fits_on_results l E O outV r i : tiles_to_eids l E O outV = Ok r -> (forall t, In t l -> footprint_ok t) -> In i r ->
+  Generated64.HorizontalZoomMinMax (eh i) (Ids.ex i) (ey i) (ev i) = Some (hzoom_minmax (eh i) (Ids.ex i) (ey i) (ev i), true) /\
+  Generated64.VerticalZoom_minmax (ev i) (ef i) (eh i) = Some (vzoom_minmax (ev i) (ef i) (eh i), true).
+Proof.
+  intros H Hf Hi. pose proof (tiles_to_eids_valid _ _ _ _ _ H Hf i Hi) as (Vh & Vv & Vx & Vy & Vf). split.
+  - rewrite gen64_HorizontalZoomMinMax_fits by lia. now rewrite gen_HorizontalZoomMinMax_eq.
+  - rewrite gen64_VerticalZoom_minmax_fits by lia. now rewrite gen_VerticalZoom_minmax_eq.
+Qed.
+(* OUTSIDE THE GRID THE INT64 CODE WRAPS: the tile (hZoom 0, x = 2^62) expanded to zoom 2 — the regenerated int64 kernel returns the
+   columns 0..3 with the flag off (x * 4 = 2^64 wrapped to 0), the unbounded kernel 2^64 .. 2^64 + 3. This is why the spatial variant
+   is claimed for footprints of the grid only (request [(0, 2^62, 0, 25, 0)], E 25, O 0, outV 2: Go returns 2/0/0/0 .. 2/0/3/3) *)
+Theorem generated64_expansion_wraps_outside_the_grid :
+  Generated64.HorizontalZoomMinMax 0 (2 ^ 62) 0 2 = Some ((0, 0, 3, 3), false) /\
+  Generated.HorizontalZoomMinMax 0 (2 ^ 62) 0 2 = (2 ^ 64, 0, 2 ^ 64 + 3, 3) /\
+  tiles_to_eids [mkt 0 (2 ^ 62) 0 25 0] 25 0 2 = Ok [mk 0 (2 ^ 62) 0 2 0].
+Proof. vm_compute. repeat split; reflexivity. Qed.
